@@ -389,6 +389,21 @@ def run(binp, tier, scratch, workers=16):
             (["remove", "a0"], True, {"m5": ("plain5.example.com", "/", t1, "running", "no"), "s3": ("*", "/", t2, "running", "no"), "z9": ("tls9.example.com", "/", t3, "running", "yes")}),
             (["remove", "z9"], True, {"m5": ("plain5.example.com", "/", t1, "running", "no"), "s3": ("*", "/", t2, "running", "no")}),
             (["remove", "m5"], True, {"s3": ("*", "/", t2, "running", "no")}),
+            # a sub-path service shows the TLS setting of the root-path service of its host: followed while the root service
+            # arrives, moves to another host, comes back and is removed
+            (["deploy", "web", "--target", t1, "--host", "tlsa.example.com", "--tls"], True, {"web": ("tlsa.example.com", "/", t1, "running", "yes"), "s3": ("*", "/", t2, "running", "no")}),
+            (["deploy", "api", "--target", t3, "--host", "tlsa.example.com", "--path-prefix", "/api"], True,
+             {"api": ("tlsa.example.com", "/api", t3, "running", "yes"), "web": ("tlsa.example.com", "/", t1, "running", "yes"), "s3": ("*", "/", t2, "running", "no")}),
+            (["deploy", "web", "--target", t1, "--host", "tlsb.example.com", "--tls"], True,
+             {"api": ("tlsa.example.com", "/api", t3, "running", "no"), "web": ("tlsb.example.com", "/", t1, "running", "yes"), "s3": ("*", "/", t2, "running", "no")}),
+            (["deploy", "web", "--target", t1, "--host", "tlsa.example.com,tlsb.example.com", "--tls"], True,
+             {"api": ("tlsa.example.com", "/api", t3, "running", "yes"), "web": ("tlsa.example.com,tlsb.example.com", "/", t1, "running", "yes"), "s3": ("*", "/", t2, "running", "no")}),
+            (["deploy", "web", "--target", t1, "--host", "tlsa.example.com,tlsb.example.com"], True,
+             {"api": ("tlsa.example.com", "/api", t3, "running", "no"), "web": ("tlsa.example.com,tlsb.example.com", "/", t1, "running", "no"), "s3": ("*", "/", t2, "running", "no")}),
+            (["deploy", "web", "--target", t1, "--host", "tlsa.example.com", "--tls"], True,
+             {"api": ("tlsa.example.com", "/api", t3, "running", "yes"), "web": ("tlsa.example.com", "/", t1, "running", "yes"), "s3": ("*", "/", t2, "running", "no")}),
+            (["remove", "web"], True, {"api": ("tlsa.example.com", "/api", t3, "running", "no"), "s3": ("*", "/", t2, "running", "no")}),
+            (["remove", "api"], True, {"s3": ("*", "/", t2, "running", "no")}),
             # names outside ASCII that are the widest cell of their column (bytes and characters differ)
             (["deploy", "caf\u00e9-fran\u00e7ais-m\u00fcnchen", "--target", t1, "--host", "uni.example.com", "--path-prefix", "/\u0441\u0442\u0440\u0430\u043d\u0438\u0446\u0430-\u0434\u043e\u043a"], True,
              {"caf\u00e9-fran\u00e7ais-m\u00fcnchen": ("uni.example.com", "/\u0441\u0442\u0440\u0430\u043d\u0438\u0446\u0430-\u0434\u043e\u043a", t1, "running", "no"), "s3": ("*", "/", t2, "running", "no")}),
